@@ -16,13 +16,20 @@
    What remains outside the theorem: that the Go parser generated from jsonpath.peg behaves like the
    interpreter and that the Go actions behave like Actions.v — decided by the correspondence check
    (accept/reject, error, position, tree dumps; isolated workers with a time limit). *)
-From JP Require Import Peg Grammar Text Tree Actions PegFacts ParseFacts CompareFacts StackRules FuelRules.
+From JP Require Import Peg Grammar Text Tree Actions WF PegFacts ParseFacts CompareFacts StackRules FuelRules.
 
 Theorem C02_parse_total : forall cfg parse_float regex_ok input,
   (exists t, parse_with cfg parse_float regex_ok jsonpath_grammar input = ParseOk t) \/
   (exists e, parse_with cfg parse_float regex_ok jsonpath_grammar input = ParseErr e).
 Proof. exact parse_total. Qed.
 Print Assumptions C02_parse_total.
+
+(* every tree Parse returns satisfies the well-formedness the evaluator theorems assume (WF.wf_node):
+   proved by the same checker, whose item types carry the invariants (StackActs.has_ty) *)
+Theorem C02_parsed_trees_well_formed : forall cfg parse_float regex_ok input t,
+  parse_with cfg parse_float regex_ok jsonpath_grammar input = ParseOk t -> WF.wf_node t = true.
+Proof. exact parse_builds_wf. Qed.
+Print Assumptions C02_parsed_trees_well_formed.
 
 Theorem C02_no_crash_site : forall cfg parse_float regex_ok input s,
   parse_with cfg parse_float regex_ok jsonpath_grammar input = ParseCrash s -> peg_parse jsonpath_grammar input = PFuel.
